@@ -191,8 +191,22 @@ HARNESSES += [
             bounds={"next slot, publish instant": "any µs in 2000..2100 (periods and deferred starts from sub-second to 100 years)"},
             functions=["connections/rabbitmq/message_broker.py:RabbitMessageBroker.requeue"], covers=["published-delayed"],
             outside=["RabbitMQ's own expiry timing (server)"], stubs=["fake AMQP channel records the publish"]),
+    Harness(name="H06-redis-handback", scenario=h05_redis, workers=4, params={"quick": {"via": "reject"}, "thorough": {"via": "reject"}},
+            bounds={"as H05-redis-reject": "a scheduled iteration (any slot, any clock position) that somebody takes and hands back (reject) keeps its slot: "
+                                           "not delivered to a normal consumer before it"},
+            functions=["connections/redis/message_broker.py:RedisMessageBroker.reject"], covers=["delivered", "held-back"], stubs=["fake Redis server"]),
     Harness(name="H06-redis-reschedule", scenario=h05_redis, workers=4, params={"quick": {"via": "requeue"}, "thorough": {"via": "requeue"}},
             bounds={"next slot, requeue instant, consume instant": "any µs in 2000..2050"},
             functions=["connections/redis/message_broker.py:RedisMessageBroker.requeue"], covers=["delivered", "held-back"], stubs=["fake Redis server"]),
 ]
+from harness.c03 import h03_stop  # noqa: E402
+
+HARNESSES.append(
+    Harness(name="H06-stop-during-reschedule", scenario=h03_stop, workers=16, budget_s=900,
+            params={"quick": {"n_msgs": 1, "kinds": (3,)}, "thorough": {"n_msgs": 2, "kinds": (3,)}},
+            bounds={"as H03-stop-mem": "a recurring job: stop signal at every loop step 1..90 (also inside the requeue), any graceful period in [0, 8 ms]: "
+                                      "never two copies, a changed counter/slot only through the one requeue"},
+            functions=["_runner.py:_Runner._process_with_event", "_processor.py:_Processor.process"],
+            covers=["stopped", "requeued"],
+            stubs=["signal delivery = the captured handler is called at the start of loop iteration k"]))
 ASSUMPTIONS = ["in-memory broker; iteration finish instants are free symbolic values constrained only by 'after its slot, non-decreasing'"]
